@@ -302,8 +302,49 @@ func annotCondLock() {
 				to = is
 			}
 		}
+		guard := false
 		if from == nil || to == nil {
-			continue
+			// the same discipline written with a guard clause: `if !p { ...; return }` followed, at the top level of the
+			// function, by `X.Lock()`: inside the guard the callers that pass false hold X (checked like the form above)
+			from, to = nil, nil
+			for i, s := range fi.decl.Body.List {
+				is, ok := s.(*ast.IfStmt)
+				if !ok || is.Else != nil || is.Init != nil || !terminates(is.Body.List) {
+					continue
+				}
+				ue, ok := is.Cond.(*ast.UnaryExpr)
+				if !ok || ue.Op != token.NOT {
+					continue
+				}
+				id, ok := ast.Unparen(ue.X).(*ast.Ident)
+				if !ok {
+					continue
+				}
+				v, ok := info.Uses[id].(*types.Var)
+				if !ok {
+					continue
+				}
+				for _, s2 := range fi.decl.Body.List[i+1:] {
+					es, ok := s2.(*ast.ExprStmt)
+					if !ok {
+						continue
+					}
+					call, ok := es.X.(*ast.CallExpr)
+					if !ok {
+						continue
+					}
+					if p, op := lockCall(info, call); p != "" && op == "Lock" {
+						from, path, param, guard = is, p, v, true
+						break
+					}
+				}
+				if guard {
+					break
+				}
+			}
+			if !guard {
+				continue
+			}
 		}
 		a := &annotation{ID: "cond-lock:" + fi.obj.Name(), What: fmt.Sprintf("%s holds %s between `if %s {Lock}` and `if %s {Unlock}`: callers pass true, or false while holding the lock", fi.obj.FullName(), path, param.Name(), param.Name()), Holds: true}
 		annots = append(annots, a)
@@ -331,7 +372,11 @@ func annotCondLock() {
 			continue
 		}
 		a.Premises = append(a.Premises, "the condition is a bool parameter that is never assigned")
-		condLock[fi.obj] = condLockInfo{param: param, path: path, from: from.Pos(), to: to.Pos()}
+		if guard {
+			condLock[fi.obj] = condLockInfo{param: param, path: path, from: from.Pos(), to: token.NoPos, guard: true}
+		} else {
+			condLock[fi.obj] = condLockInfo{param: param, path: path, from: from.Pos(), to: to.Pos()}
+		}
 	}
 }
 
